@@ -35,6 +35,7 @@ type thread struct {
 	vc      vclock
 	held    []string
 	ops     int // number of scheduling points passed
+	quiet   int // >0: enabled scheduling points of this thread are not offered to the explorer (see Quiet)
 }
 
 type pendingOp struct {
@@ -278,6 +279,10 @@ func (s *Sched) point(label string, enabled func() bool) {
 		return
 	}
 	t := s.cur
+	if t.quiet > 0 && (enabled == nil || enabled()) {
+		t.ops++
+		return
+	}
 	t.pending = &pendingOp{label: label, enabled: enabled}
 	s.reschedule(t)
 	t.pending = nil
@@ -412,6 +417,22 @@ func Yield(label string) {
 		return
 	}
 	s.point(label, nil)
+}
+
+// Quiet runs f without offering the running thread's enabled scheduling points to the explorer: the
+// thread keeps running through lock operations that are enabled and only yields where it must block.
+// This is a partial-order reduction the harness may use ONLY for code whose transitions are
+// independent of every other thread's (e.g. an iterator Next that pops an already fetched item).
+func Quiet(f func()) {
+	s := active
+	if s == nil || s.aborting {
+		f()
+		return
+	}
+	t := s.cur
+	t.quiet++
+	defer func() { t.quiet-- }()
+	f()
 }
 
 // ThreadID returns the id of the running scheduler thread (0 in pass-through mode).
